@@ -91,13 +91,26 @@ def main():
             for f in sorted(glob.glob(os.path.join(d, 'inputs', '*'))):
                 data = json.load(open(f))
                 fr = {'name': os.path.basename(f), 'json': data}
-                if a['method'] == 'direct':
-                    try:
-                        with contextlib.redirect_stdout(io.StringIO()):
-                            bs = read_input_json(f, os.path.join(d, 'out.json'))
+                try:
+                    with contextlib.redirect_stdout(io.StringIO()):
+                        bs = read_input_json(f, os.path.join(d, 'out.json'))
+                    if a['method'] == 'direct':
                         fr['sims'] = [[s.code.id, s.code.params, s.error_model.params, s.decoder.id, s.error_rate] for s in bs._simulations]
-                    except Exception as ex:
-                        fr['read_error'] = '%s: %s' % (type(ex).__name__, ex)
+                    else:
+                        # a splitting simulation covers all error rates of one (lattice, noise, decoder): one entry per rate it holds,
+                        # in the order of the specification when it holds exactly those rates
+                        fr['sims'] = []
+                        spec_rates = [float(x) for x in data.get('ranges', {}).get('error_rate', [])]
+                        for s in bs._simulations:
+                            held = sorted(float(x) for x in s.error_rates)
+                            order = spec_rates if sorted(spec_rates) == held else held
+                            ids = set(d_.id for d_ in s.decoders)
+                            did = ids.pop() if len(ids) == 1 and len(s.decoders) == len(held) else 'decoders %s for %d rates' % ([d_.id for d_ in s.decoders], len(held))
+                            fr['sims'] += [[s.code.id, s.code.params, s.error_model.params, did, r_] for r_ in order]
+                            if type(s).__name__ != 'SplittingSimulation':
+                                fr['read_error'] = 'method splitting read back as %s' % type(s).__name__
+                except Exception as ex:
+                    fr['read_error'] = '%s: %s' % (type(ex).__name__, ex)
                 rec['files'].append(fr)
             res['invocations'].append(rec)
     json.dump(res, open(out, 'w'), default=lambda o: o.tolist() if hasattr(o, 'tolist') else str(o))
